@@ -747,6 +747,7 @@ func runC07(c *mon.Ctx) {
 
 	c07bytesStratum(c)
 	c07layouter(c)
+	c07longHistory(c)
 
 	for _, name := range c07shapeNames {
 		switch name {
